@@ -59,6 +59,11 @@ def main(tier, replay):
             J('gram-%s-2n' % n, n, [2, 0, 0, 2, 1, 0, 1, 0])
     first = len(c.jobs)
     out = run_program_jobs_batched(c, mod, infos, jobs, batch=200)
+    # engine vs native build on concrete pseudo-random records (observations: definition and repetition levels of every column)
+    for n in ('p4', 'document', 'person', 'deep_rep' if 'deep_rep' in infos else 'p1'):
+        if n in infos and infos[n]['ok']:
+            cx = dict(scratch_ctx(infos[n]), dir=mod, overlay={})
+            differential(c, {'name': 'shred-%s' % n, 'pkg': 'scratch/' + n, 'func': 'HarnessShred', 'args': [2, 1, 0, 3, 2, 1, 3, 0], 'opt': {'stub': stubs(n)}}, cx, runs=60 if quick else 300)
     # grammar programs that do not compile are C05's business: not a C03 verdict
     bad_compile = sorted({k.split('/')[-1] for k in (out.get('load_errors') or {}) if k.startswith('scratch/g')})
     c.inconclusive = [r for r in c.inconclusive if not re.search(r'job gram-', r)]
